@@ -513,6 +513,13 @@ def extract():
                  "layout": layout_json(cls._cdb_bits) if is_layout(cls._cdb_bits) else [], "layout_ok": False}
         out["commands"].append(d)
     out["facade"] = tr_facade(mods["pyscsi.pyscsi.scsi"])
+    # EXTENDED COPY code tables: {code: {"name":…, "size":…}} -> [[code, size or 0, name, description]]
+    out["codes"] = []
+    for cls in sorted(set(classes), key=lambda c: (c.__module__, c.__name__)):
+        for a2, v2 in vars(cls).items():
+            if a2.endswith("_codes") and isinstance(v2, dict) and v2 and all(isinstance(k, int) and isinstance(v, dict) for k, v in v2.items()):
+                out["codes"].append({"owner": cls.__name__, "module": cls.__module__.split(".")[-1], "attr": a2,
+                                     "entries": [[k, int(v.get("size", 0)), str(v.get("name", "")), str(v.get("description", ""))] for k, v in v2.items()]})
     # sense tables
     ss = mods["pyscsi.pyscsi.scsi_sense"]
     out["sense"] = {
@@ -699,6 +706,25 @@ def emit(data):
     lines.append("]")
     lines.append("end Gen")
     files["Facade.lean"] = "\n".join(lines) + "\n"
+    # ---- Enums (integer enumerations and EXTENDED COPY code tables)
+    lines = ["/-! GENERATED by tools/lib/gen.py from the repo working tree. Do not edit. -/", "namespace Gen", ""]
+    lines.append("/-- integer-valued `Enum` objects: (module, enum, [(name, value)]) -/")
+    lines.append("def enums : List (String × String × List (String × Nat)) := [")
+    rows = []
+    for mod in sorted(data.get("enums", {})):
+        for en in sorted(data["enums"][mod]):
+            rows.append("  (%s, %s, [%s])" % (lean_str(mod), lean_str(en), ", ".join(
+                "(%s, %d)" % (lean_str(k), v) for k, v in data["enums"][mod][en] if isinstance(v, int) and v >= 0)))
+    lines.append(",\n".join(rows))
+    lines.append("]")
+    lines.append("")
+    lines.append("/-- EXTENDED COPY code tables: (class, module, attribute, [(code, size)]) -/")
+    lines.append("def codeTables : List (String × String × String × List (Nat × Nat)) := [")
+    lines.append(",\n".join("  (%s, %s, %s, [%s])" % (lean_str(c["owner"]), lean_str(c["module"]), lean_str(c["attr"]),
+                                                     ", ".join("(%d, %d)" % (e[0], e[1]) for e in c["entries"])) for c in data.get("codes", [])))
+    lines.append("]")
+    lines.append("end Gen")
+    files["Enums.lean"] = "\n".join(lines) + "\n"
     # ---- Sense
     lines = ["/-! GENERATED by tools/lib/gen.py from the repo working tree. Do not edit. -/", "namespace Gen", ""]
     lines.append("def senseKeys : List (Nat × String) := [%s]" % ", ".join(
